@@ -43,10 +43,12 @@ def rPairs : RM (List (Nat × Nat)) := rList (do let a ← rN; let b ← rN; pur
 def sortPairs (l : List (Nat × Nat)) : List (Nat × Nat) :=
   (l.map normPair).mergeSort (fun x y => x.1 < y.1 || (x.1 == y.1 && x.2 ≤ y.2))
 
-/-- a pair whose verdict sits on the threshold (`distance` within float noise of `r_min`): don't care -/
+/-- a pair whose verdict sits on the threshold: don't care.  The harness runs the distance query with the bodies in either
+order and writes the distance as exactly the safety distance where the two answers disagree about it or come within 1e-4
+(relative) of it; a distance of a few micrometres against a safety distance of a few micrometres more is NOT on the threshold -/
 def ambiguous (sc : Scene Float) (s : Safety Float) (p : Nat × Nat) : Bool :=
   let r := s.minDistance p.1 p.2
-  r > 0.0 && (sc.distance p.1 p.2 - r).abs ≤ 1e-5 * (1.0 + r)
+  r > 0.0 && (sc.distance p.1 p.2 - r).abs ≤ 1e-4 * r
 
 def dropAmb (sc : Scene Float) (s : Safety Float) (l : List (Nat × Nat)) : List (Nat × Nat) :=
   l.filter (fun p => !(ambiguous sc s p))
